@@ -755,6 +755,97 @@ func c04ReplayGuards(p *Pkg) []string {
 	return guards
 }
 
+// c04FileInUse: which records of a node keep a tan log file alive (nodeIndex.fileInUse)
+func c04FileInUse(p *Pkg) []string {
+	fn := p.Func("nodeIndex", "fileInUse")
+	var out []string
+	seen := map[string]bool{}
+	add := func(x string) {
+		if !seen[x] {
+			seen[x] = true
+			out = append(out, x)
+		}
+	}
+	ast.Inspect(fn.Body, func(n ast.Node) bool {
+		be, ok := n.(*ast.BinaryExpr)
+		if !ok || be.Op != token.EQL {
+			return true
+		}
+		l := c04ExprString(be.X)
+		switch {
+		case strings.HasSuffix(l, ".snapshot.fileNum"):
+			add("FuSnapshot")
+		case strings.HasSuffix(l, ".state.fileNum"):
+			add("FuState")
+		case l == "ie.fileNum":
+			add("FuEntries")
+		}
+		return true
+	})
+	return out
+}
+
+// c04DoSaveSteps: node.doSave, the order of: sm.Save, snapshotter.Commit, the return for an
+// exported snapshot, logReader.CreateSnapshot (the snapshot is recorded for this replica),
+// compactLog (log compaction scheduled), ss.setIndex
+func c04DoSaveSteps(p *Pkg) []string {
+	fn := p.Func("node", "doSave")
+	var steps []string
+	for _, st := range fn.Body.List {
+		if is, ok := st.(*ast.IfStmt); ok && is.Init == nil {
+			if name, c := c04CallName(is.Cond); c != nil && name == "Exported" {
+				ret := false
+				for _, b := range is.Body.List {
+					if _, ok := b.(*ast.ReturnStmt); ok {
+						ret = true
+					}
+				}
+				if ret {
+					steps = append(steps, "SsExportedReturn")
+					continue
+				}
+			}
+		}
+		var calls []*ast.CallExpr
+		switch x := st.(type) {
+		case *ast.IfStmt:
+			if x.Init != nil {
+				if as, ok := x.Init.(*ast.AssignStmt); ok && len(as.Rhs) == 1 {
+					if _, c := c04CallName(as.Rhs[0]); c != nil {
+						calls = append(calls, c)
+					}
+				}
+			}
+		case *ast.AssignStmt:
+			for _, r := range x.Rhs {
+				if _, c := c04CallName(r); c != nil {
+					calls = append(calls, c)
+				}
+			}
+		case *ast.ExprStmt:
+			if _, c := c04CallName(x.X); c != nil {
+				calls = append(calls, c)
+			}
+		}
+		for _, c := range calls {
+			name, _ := c04CallName(c)
+			switch name {
+			case "Save":
+				steps = append(steps, "SsSave")
+			case "Commit":
+				steps = append(steps, "SsCommit")
+			case "CreateSnapshot":
+				steps = append(steps, "SsRecord")
+			case "compactLog":
+				steps = append(steps, "SsCompactLog")
+			case "setIndex":
+				steps = append(steps, "SsSetIndex")
+			}
+		}
+	}
+	return steps
+}
+
 func init() {
 	register(&Unit{Name: "C04", Imports: "From Coq Require Import Bool.", Facts: []Fact{
 		{Name: "stage vocabulary", Gen: func() string {
@@ -823,6 +914,16 @@ func init() {
 		{Name: "replayLog guards", Gen: func() string {
 			return "Inductive rguard := RgNoSavedLog | RgReadError | RgUnknownReturn.\n" +
 				"Definition replay_log_guards : list rguard := [" + strings.Join(c04ReplayGuards(loadPkg(".")), "; ") + "].\n"
+		}},
+		// internal/tan/index.go nodeIndex.fileInUse: the records that keep a log file alive
+		{Name: "tan fileInUse", Gen: func() string {
+			return "Inductive fuse := FuSnapshot | FuState | FuEntries.\n" +
+				"Definition tan_file_in_use_fields : list fuse := [" + strings.Join(c04FileInUse(loadPkg("internal/tan")), "; ") + "].\n"
+		}},
+		// node.go doSave: step order
+		{Name: "doSave steps", Gen: func() string {
+			return "Inductive sstep := SsSave | SsCommit | SsExportedReturn | SsRecord | SsCompactLog | SsSetIndex.\n" +
+				"Definition do_save_steps : list sstep := [" + strings.Join(c04DoSaveSteps(loadPkg(".")), "; ") + "].\n"
 		}},
 		// internal/logdb/kv/pebble: every write batch is committed with Sync: true
 		{Name: "pebble write options", Gen: func() string {
